@@ -64,6 +64,7 @@ func propGen(prop, tier string, idx int) GenOpts {
 		o.PMulti, o.PResult, o.PAs, o.PName, o.PGroup, o.PParamObj = 200, 250, 300, 250, 300, 600
 		o.PIgnored, o.POptionalMissing, o.PGroupDep = 120, 200, 500
 		o.PProbeUnregistered = 250
+		o.PAs, o.PAs2 = 400, 500
 		o.NoMultiOpts, o.NoResultGroup = false, false
 		o.PResultGroup = 300
 		conc(1, 1)
@@ -122,6 +123,7 @@ func propGen(prop, tier string, idx int) GenOpts {
 		}
 	case "C12":
 		o.PDisposable = 900
+		o.PCloseStorm = 300
 		conc(1, 4)
 		if seq {
 			conc(1, 1)
@@ -133,6 +135,13 @@ func propGen(prop, tier string, idx int) GenOpts {
 		conc(2, 4)
 		if seq {
 			conc(1, 1)
+		}
+		o.PCloseStorm = 250
+		if idx%4 == 1 {
+			// cascading close must be complete whatever Close methods fail
+			o.FaultBudget = [4]int{3, 4, 3, 1}
+			o.WFault = [4]int{0, 0, 0, 5}
+			o.PDisposable = 800
 		}
 		o.WOp = [8]int{0, 9, 3, 6, 5, 3, 1, 0}
 		o.WLife = [3]int{2, 6, 3}
@@ -340,6 +349,9 @@ func (e *containerEngine) exec(c *Case, tape *Tape) *RunOut {
 	}
 	if h.verdict.StepLimit {
 		trouble("run step limit reached")
+	}
+	if h.verdict.TaskLimit {
+		trouble("simulator task limit reached")
 	}
 	return out
 }
